@@ -1205,5 +1205,5 @@ def get_pivoted_stats(stats, pivot_value):
     if pivot_value is None:
         return stats
     if len(stats) == 1:
-        return [stats[0].alias(pivot_value)]
+        return [stats[0].alias(str(pivot_value))]
     return [stat.alias(f"{pivot_value}_{stat}") for stat in stats]
